@@ -60,35 +60,30 @@ def parse_explain(text):
     return sections
 
 
-def count_items(v):
-    """number of top-level items of `[a, b(c, d), e]`"""
+def split_items(v, quotes=True):
+    """top-level items of `[a, b(c, d), e]`.
+    quotes=True (logical EXPLAIN): string literals print as '...' WITHOUT escaping an inner quote ('a''b' prints 'a'b'):
+    a quote opens a literal at a token start and closes it only when a delimiter (`,` `)` `]` blank, end) follows.
+    quotes=False (physical EXPLAIN): literals print bare (a'b, an empty string prints nothing): a quote is an ordinary
+    character there."""
     v = v.strip()
     if not (v.startswith("[") and v.endswith("]")):
         return None
-    v = v[1:-1].strip()
-    if not v:
-        return 0
-    depth, n, q = 0, 1, False
-    for ch in v:
-        if ch == "'":
-            q = not q
-        elif q:
-            continue
-        elif ch in "([":
-            depth += 1
-        elif ch in ")]":
-            depth -= 1
-        elif ch == "," and depth == 0:
-            n += 1
-    return n
-
-
-def split_items(v):
-    v = v.strip()[1:-1]
+    v = v[1:-1]
     out, cur, depth, q = [], "", 0, False
-    for ch in v:
-        if ch == "'":
-            q = not q
+    n = len(v)
+    for i, ch in enumerate(v):
+        if quotes and ch == "'":
+            if not q:
+                prev = v[i - 1] if i > 0 else " "
+                if prev in " ([,=<>!|+-*/%":
+                    q = True
+            else:
+                nxt = v[i + 1] if i + 1 < n else " "
+                if nxt in " ,)]":
+                    q = False
+            cur += ch
+            continue
         if not q:
             if ch in "([":
                 depth += 1
@@ -99,9 +94,14 @@ def split_items(v):
                 cur = ""
                 continue
         cur += ch
-    if cur.strip():
+    if cur.strip() or out:
         out.append(cur.strip())
     return out
+
+
+def count_items(v, quotes=True):
+    items = split_items(v, quotes)
+    return None if items is None else len(items)
 
 
 def join_type(s):
@@ -388,7 +388,7 @@ def pjt(s):
 
 def is_magic_scan(n, ref):
     """HashAggregate[no aggregates](Project(Materialize ref)): the duplicate-eliminated scan of the materialized outer side"""
-    return n.name == "HashAggregate" and count_items(n.attrs.get("aggregates", "[]")) == 0 and len(n.kids) == 1 \
+    return n.name == "HashAggregate" and count_items(n.attrs.get("aggregates", "[]"), False) == 0 and len(n.kids) == 1 \
         and n.kids[0].name == "Project" and len(n.kids[0].kids) == 1 and n.kids[0].kids[0].name == "Materialize" \
         and n.kids[0].kids[0].attrs.get("materialization_ref") == ref
 
@@ -411,7 +411,7 @@ def psk_engine(n, mats, ref=None):
         left, right = n.kids
         if ref is not None and k == "NestedLoopJoin" and jt == "inner" and "filter" not in n.attrs and is_magic_scan(right, ref):
             sk, _ = psk_engine(left, mats, ref)
-            return sk, count_items(right.attrs["groups"])
+            return sk, count_items(right.attrs["groups"], False)
         magic = left.name == "Materialize" and not left.kids and jt in ("mark", "left")
         if magic:
             lsk_, _ = psk_engine(left, mats, None)
@@ -422,7 +422,7 @@ def psk_engine(n, mats, ref=None):
         (a, na), (b, nb) = psk_engine(left, mats, ref), psk_engine(right, mats, ref)
         nc = na if na is not None else nb
         if k == "HashJoin":
-            return ("hashjoin %s %d" % (jt, count_items(n.attrs["conditions"])), a, b), nc
+            return ("hashjoin %s %d" % (jt, count_items(n.attrs["conditions"], False)), a, b), nc
         return ("nljoin %s %d" % (jt, 1 if "filter" in n.attrs else 0), a, b), nc
     subs = [psk_engine(c, mats, ref) for c in n.kids]
     ncs = [x[1] for x in subs if x[1] is not None]
@@ -433,10 +433,10 @@ def psk_engine(n, mats, ref=None):
         return ("filter",) + kids, nc
     if k == "Project":
         # a projection list that consists of the single literal '' prints as `[]`
-        return ("project %d" % (max(1, count_items(n.attrs["projections"])) - sub),) + kids, nc
+        return ("project %d" % (max(1, count_items(n.attrs["projections"], False)) - sub),) + kids, nc
     if k == "HashAggregate":
-        aggs = split_items(n.attrs["aggregates"])
-        nk = count_items(n.attrs["groups"]) - sub
+        aggs = split_items(n.attrs["aggregates"], False)
+        nk = count_items(n.attrs["groups"], False) - sub
         if not aggs:
             return ("hashdistinct",) + kids, nc
         kids = tuple(("project *",) + kk[1:] if kk[0].startswith("project ") else kk for kk in kids)
@@ -444,11 +444,11 @@ def psk_engine(n, mats, ref=None):
             return ("ungroupedaggregate", ("aggs", len(set(aggs)), len(aggs))) + kids, nc
         return ("hashaggregate %d" % nk, ("aggs", len(set(aggs)), len(aggs))) + kids, nc
     if k == "UngroupedAggregate":
-        aggs = split_items(n.attrs["aggregates"])
+        aggs = split_items(n.attrs["aggregates"], False)
         kids = tuple(("project *",) + kk[1:] if kk[0].startswith("project ") else kk for kk in kids)
         return ("ungroupedaggregate", ("aggs", len(set(aggs)), len(aggs))) + kids, nc
     if k == "GlobalSort":
-        return ("sort %d" % count_items(n.attrs["sort_expressions"]),) + kids, nc
+        return ("sort %d" % count_items(n.attrs["sort_expressions"], False),) + kids, nc
     if k == "Limit":
         off = n.attrs.get("offset", "0")
         off = 0 if off in ("None", "") else int(off)
